@@ -118,8 +118,26 @@ def run(ctx):
             if not np.allclose(integ, 1.0, rtol=1e-9):
                 probs.append(("spread-integral", "spreading integrates to %s over the circle (directions %s)" % (integ, order)))
             two = (sc * G)
+            raw = two.rename("efth")            # the product exactly as built (the extra dimension of the parameters may come last)
             two = two.transpose(*([d for d in two.dims if d not in ("freq", "dir")] + ["freq", "dir"]))
             two.name = "efth"
+            if not xd:
+                # scalar shape parameters with the spreading parameters given over an extra dimension (a scan of directions): the product
+                # then carries the extra dimension wherever broadcasting puts it
+                Gs = cartwright(dir=dirs, dm=xr.DataArray(np.array([dm, (dm + 140.0) % 360.0, dm]), dims=("case",), coords={"case": [0, 1, 2]}),
+                                dspr=xr.DataArray(np.array([spr, spr, spr]), dims=("case",), coords={"case": [0, 1, 2]}))
+                raw = (sc * Gs).rename("efth")
+                two_ = raw.transpose(*([d for d in raw.dims if d not in ("freq", "dir")] + ["freq", "dir"]))
+            else:
+                two_ = two
+            if tuple(raw.dims) != tuple(two_.dims):
+                try:
+                    for stat in ("dm", "dspr", "hs"):
+                        a_, b_ = getattr(raw.spec, stat)(), getattr(two_.spec, stat)()
+                        if not np.allclose(np.asarray(a_.transpose(*b_.dims).values, float), np.asarray(b_.values, float), rtol=1e-9, atol=1e-9, equal_nan=True):
+                            probs.append(("measured-as-built", "%s measured on the product as built (dims %s) differs from the same spectra with the spectral dims last" % (stat, raw.dims)))
+                except Exception as ex:  # noqa
+                    probs.append(("measured-as-built", "measuring the product as built (dims %s) raised %s: %s" % (raw.dims, type(ex).__name__, str(ex)[:100])))
             one = two.spec.oned()
             if not np.allclose(one.transpose(*sc.dims).values, sc.values, rtol=1e-9, atol=1e-300):
                 probs.append(("oned-of-product", "oned(shape x spreading) differs from the shape"))
